@@ -6,3 +6,4 @@ open Fzf.Props.C01
 #print axioms C01_cfgOk_of_tables
 #print axioms C01_filter_exact
 #print axioms C01_exact_term_decides
+#print axioms C01_anchored_terms_decide
